@@ -31,7 +31,7 @@ def parseCalls : Nat → List String → Option (List (List Item))
   | _, _ => none
 
 def outcomeStr : Outcome → String
-  | .ok => "ok" | .err => "err" | .panic => "panic"
+  | .ok => "ok" | .err => "err" | .panic => "panic" | .hang => "hang"
 
 def handleLine (line : String) : String :=
   match VL.toks line with
